@@ -87,7 +87,8 @@ pub fn run(ctx: &mut Ctx) -> Report {
 		let mut p = gen_params(&mut rng);
 		if portable {
 			// what the crypto-less build can express: explicit serial, pre-specified key identifier
-			p.serial = Some(vec![(k % 128) as u8, (k / 128) as u8, 7]);
+			// (first octet over the whole range: an INTEGER's sign bit is where builds could part)
+			p.serial = Some(vec![(k % 256) as u8, (k / 256) as u8, 7]);
 			// pre-specified key identifiers of every length class (empty, short, 20, longer than a digest)
 			p.kid = Kid::Pre(vec![k as u8; [20usize, 20, 1, 32, 0, 21, 64, 19][k % 8]]);
 		}
@@ -164,6 +165,28 @@ pub fn run(ctx: &mut Ctx) -> Report {
 					Err(e) => lines.push(format!("{} crypto-only (load-err {})", tag, err_name(&e))),
 				}
 			}
+		}
+	}
+	// a subject known by its public key alone (`SubjectPublicKeyInfo::from_der` of the exported
+	// key — in the crypto-less build the only way a foreign subject key gets in): the certificate
+	// issued to it is the one issued to the key pair, in every build
+	for (name, _, _) in &keyset {
+		let key = s.ctx.key(&format!("fx-{}", name));
+		let enc = key.public_key_der();
+		let mut p = PCert::default_like();
+		p.serial = Some(vec![0x23]);
+		p.kid = Kid::Pre(vec![0x25; 20]);
+		let Some(rp) = p.real() else { continue };
+		let iss = &s.issuers[0];
+		let direct = rp.clone().signed_by(&*key, &iss.cert, &iss.key).ok().and_then(|c| crate::der::split_signed(c.der()).map(|x| x.0));
+		let via = match std::panic::catch_unwind(|| SubjectPublicKeyInfo::from_der(&enc)) {
+			Ok(Ok(spki)) => rp.signed_by(&spki, &iss.cert, &iss.key).ok().and_then(|c| crate::der::split_signed(c.der()).map(|x| x.0)),
+			_ => None,
+		};
+		s.rep.case(&format!("issued to the imported public key {}", name), true);
+		lines.push(format!("spki-issue {} portable {}", name, via.as_ref().map(|t| hex(t)).unwrap_or("none".into())));
+		if direct.is_none() || via != direct {
+			s.rep.violate(&format!("C16:issued-to-imported-public-key:{}", name), "the certificate issued to a subject's imported SubjectPublicKeyInfo differs from the one issued to its key pair (or the import fails)", format!("build={} SubjectPublicKeyInfo={}\nissued to the key pair: {}\nissued to the import:  {}", build(), hex(&enc), direct.map(|t| hex(&t)).unwrap_or("none".into()), via.map(|t| hex(&t)).unwrap_or("none".into())));
 		}
 	}
 	// P-521 is outside what the back ends have in common, but what the aws-lc-rs build signs with
